@@ -82,7 +82,7 @@ for i in range(1, 19):
 
 manifest = {
   "version": 1,
-  "setup_cmd": "./bin/check selftest",
+  "setup_cmd": "./bin/check setup",
   "hooks": {
     "guard": "--cfg walleye_verif",
     "enable": "in-process harness: harness/build.rs emits cargo:rustc-cfg=walleye_verif and #[path]-includes /repo/src/*.rs; hooked binary: RUSTFLAGS='--cfg walleye_verif' cargo build --release --manifest-path /repo/Cargo.toml --target-dir /verif/.target/bb-hooked (run from /verif)",
